@@ -29,6 +29,11 @@ TB = [
 FAIL_PARSE = ["{ RdV = ; }", "{", "{ RdV = RsV @ 1; }"]
 FAIL_XFORM = ["{ RdV = foo(RsV); }", "{ EA = RsV; mem_store_u32(EA, RtV); while (RsV) { RdV = 1; } }", "{ P1 = 1; RdV = RsV->x; }",
               "{ RdV = siV + unknown_var; }", "{ i = 0; i++; RdV = bar(RsV); }", "{ float f = 1; RdV = 1; }", "{ RdV = mem_load_s16(RsV) + 1; }"]
+# behaviours with several value-producing operations: compiled over and over on ONE long-lived instance, so that the
+# never-reset temporary counter passes every alignment (…8/9, 9/10, 10/11 …, 99/100) while they are compiled
+SWEEP = ["{ i = 0; k = 5; i++; k--; RdV = i + k; }", "{ clz32(RsV); clo32(RtV); RdV = 1; }",
+         "{ i = 1; RdV = (i++ > 0) ? clz32(i) : 7; }", "{ i = 2; int32_t a = i++ + clz32(RsV); RdV = a + i--; }",
+         "{ i = 0; RdV = ({ int32_t q = i++; q; }) + i++; }", "{ i = 0; i++; }"]
 PROBES = ["{ RdV = RsV + 1; }", "{ PdV = RsV; }", "{ if (RsV) { RdV = siV; } }", "{ RdV = clz32(RsV) + RtV; }", "{ EA = RsV; mem_store_u16(EA, RtV); }",
           "{ i = 0; RdV = i++; }", "{ int8_t a = RsV; RddV = a; }"]
 
@@ -89,7 +94,7 @@ def run(tier: str, replay=None) -> int:
 
     # reference outputs: each in its own process forked NOW, before anything was compiled in this process
     import multiprocessing as mp
-    probe_srcs = PROBES + ok_progs[:10]
+    probe_srcs = PROBES + ok_progs[:10] + SWEEP
     tasks = [(k, s_) for s_ in probe_srcs for k in ("cstmt", "insn")]
     with mp.get_context("fork").Pool(16, maxtasksperchild=1) as pool:
         _ref = dict(zip(tasks, pool.map(_ref_worker, tasks, chunksize=1)))
@@ -211,6 +216,27 @@ def run(tier: str, replay=None) -> int:
             viol.append(payload)
     HX.preds_written.clear()
 
+    # ---- long-lived instances: the same behaviours again and again while the temporary counter grows
+    sweep_steps = 0
+    for kind in ("cstmt", "insn"):
+        c = rc.compiler("READ_STATEMENTS", fresh=True)
+        hist = []
+        for step in range(44 if tier == "quick" else 260):
+            src = SWEEP[step % len(SWEEP)] if step % 7 != 6 else rng.choice(FAIL_XFORM)
+            real = do_call(c, kind, src)
+            hist.append((0, kind, src, real[0]))
+            if src not in SWEEP:
+                continue
+            ref = fresh_output(kind, src)
+            sweep_steps += 1
+            evals += 1
+            if real[:2] != ref[:2] or real[2] != ref[2]:
+                viol.append({"what": f"output of call {step + 1} on a long-lived instance differs from the output of a fresh instance (beyond a renaming of h_tmpN)",
+                             "history": hist[:-1], "probe": [kind, src], "real": real, "fresh": ref,
+                             "reproduce": "replay the listed calls in order on ONE fresh Compiler instance, then the probe call; compare with a fresh instance"})
+                break
+    shapes.add(("sweep",))
+
     for k in known_for(PROP):
         if k["id"] == "C14-cstmt-no-reset-on-failure":
             c = rc.compiler("READ_STATEMENTS", fresh=True)
@@ -244,6 +270,6 @@ def run(tier: str, replay=None) -> int:
     res.coverage.update({
         "evaluations": evals, "distinct_nontrivial": len(shapes),
         "rule": "one evaluation = one random history (0-7 calls over compile_c_stmt / transform_insn / compile_sub_routine, successes and failures, 1-2 Compiler instances) followed by a probe call whose normalised output and attributes are compared with a fresh instance; distinct = distinct (entry point, outcome) sequences",
-        "known_class_occurrences": known, "dirty_but_output_equal": harmless_dirty, "violations_total": len(viol), "samples": samples,
+        "long_lived_instance_steps": sweep_steps, "known_class_occurrences": known, "dirty_but_output_equal": harmless_dirty, "violations_total": len(viol), "samples": samples,
     })
     return res.finish(TB, "cd lean && lake build RzilVerif.Props.C14")
